@@ -48,16 +48,17 @@ def reference(reports, dev_inst_map=None, end_us=None):
     pending = None
     dt = 0
     ambiguous = False
+    stats = reference.stats = {}
 
-    def emit(t, cmd, resp, flag):
-        out.append((t, cmd, resp, flag))
+    def emit(t, cmd, resp, flag, why="immediate"):
+        out.append((t, cmd, resp, flag, why))
 
     def timeout(p):
         t = p.t + TIMEOUT_US
         if p.cmd.sendtwice:
-            emit(t, p.cmd, None, True)
+            emit(t, p.cmd, None, True, "twice-failed-timeout")
         else:
-            emit(t, p.cmd, p.cmd.response(None), False)
+            emit(t, p.cmd, p.cmd.response(None), False, "query-timeout")
 
     for t, item in reports:
         if item is None:
@@ -75,14 +76,17 @@ def reference(reports, dev_inst_map=None, end_us=None):
             if pending is not None:
                 if pending.cmd.sendtwice:
                     if pending.cmd.frame == f:
-                        emit(t, pending.cmd, None, False)
+                        emit(t, pending.cmd, None, False, "twice-ok")
                         pending = None
                         continue
-                    emit(t, pending.cmd, None, True)
+                    emit(t, pending.cmd, None, True, "twice-failed-mismatch")
                 else:
-                    emit(t, pending.cmd, pending.cmd.response(None), False)
+                    emit(t, pending.cmd, pending.cmd.response(None), False,
+                         "query-resolved-by-next-frame")
                 pending = None
             cmd = dali.command.from_frame(f, devicetype=dt, dev_inst_map=dev_inst_map)
+            if dt and not cmd.devicetype:
+                stats["dt-context-expired"] = stats.get("dt-context-expired", 0) + 1
             dt = cmd.param if isinstance(cmd, EnableDeviceType) else 0
             if cmd.sendtwice or cmd.response:
                 pending = Pending(cmd, t)
@@ -91,18 +95,18 @@ def reference(reports, dev_inst_map=None, end_us=None):
         elif kind in ("bf", "bferr"):
             if pending is not None:
                 if pending.cmd.sendtwice:
-                    emit(t, pending.cmd, None, True)
+                    emit(t, pending.cmd, None, True, "twice-failed-backward")
                 else:
                     b = dali.frame.BackwardFrameError(255) if kind == "bferr" \
                         else dali.frame.BackwardFrame(item[1])
-                    emit(t, pending.cmd, pending.cmd.response(b), False)
+                    emit(t, pending.cmd, pending.cmd.response(b), False, "query-answered")
                 pending = None
         elif kind == "none":
             if pending is not None:
                 if pending.cmd.sendtwice:
-                    emit(t, pending.cmd, None, True)
+                    emit(t, pending.cmd, None, True, "twice-failed-noframe")
                 else:
-                    emit(t, pending.cmd, pending.cmd.response(None), False)
+                    emit(t, pending.cmd, pending.cmd.response(None), False, "explicit-no-frame")
                 pending = None
     if pending is not None:
         if end_us is not None and 150_000 < end_us - pending.t < 250_000:
@@ -115,8 +119,8 @@ def reference(reports, dev_inst_map=None, end_us=None):
 def same_emission(exp, got):
     """exp: (t, cmd, resp, flag) reference; got: (t, cmd, resp, flag) observed.
     Returns None if equal, else a short description."""
-    _, ec, er, ef = exp
-    _, gc, gr, gf = got
+    ec, er, ef = exp[1], exp[2], exp[3]
+    gc, gr, gf = got[1], got[2], got[3]
     if type(ec) is not type(gc) or ec.frame != gc.frame or len(ec.frame) != len(gc.frame):
         return "command %s != %s" % (gc, ec)
     if bool(ef) != bool(gf):
